@@ -241,7 +241,7 @@ Definition do_live (i : instance) (ev : string) (req : request) : fres :=
 (* the participant a request speaks for *)
 Definition req_pid (r : request) : option Z :=
   match r with
-  | RPart pid _ | RData _ pid _ _ | RMaster pid _ _ _ | RError pid _ _ | RSigError pid _ _
+  | RPart pid _ | RData _ pid _ _ | RMaster pid _ _ _ | RError pid _ _ | RSigError pid _ _ _
   | RStart _ pid _ _ _ | RPartial _ pid _ _ => Some pid
   | _ => None
   end.
@@ -360,7 +360,7 @@ Definition process_message (put : bool) (now : Z) (h0 : hs) (m : message) : res 
       end
     else if String.eqb (m_event m) ev_sig_recon_failed then
       match m_req m with
-      | MFsm (RSigError _ _ _) => ROk h None
+      | MFsm (RSigError _ _ _ _) => ROk h None
       | _ => RErr h
       end
     else
